@@ -13,9 +13,6 @@ PNames == {"a", "b", "c", "zz"}       \* "zz": a name no port ever has
 PHws == {"A", "B", "C", "ZZ"}
 
 \* features replies over 2 port numbers
-Init2 == { <<None, None>>,
-           <<R("a", "A", 0), R("b", "B", 0)>>,
-           <<R("a", "A", 0), R("a", "A", 0)>> }
 Init2h == { <<None, None>>, <<R("a", "A", 0), R("b", "A", 0)>> }
 \* over 3 port numbers: empty, plain, duplicates of name and of address, a gap
 Init3 == { <<None, None, None>>,
@@ -25,12 +22,8 @@ Init3 == { <<None, None, None>>,
 Init3q == { <<None, None, None>>,
             <<R("a", "A", 0), R("b", "B", 0), None>>,
             <<R("a", "A", 0), R("a", "B", 0), R("b", "A", 0)>> }
-Init3s == { <<R("a", "A", 0), R("b", "B", 1), None>>,
-            <<R("a", "A", 1), R("a", "B", 0), R("b", "A", 0)>> }
 Init3h == { <<R("a", "A", 0), R("b", "A", 1), None>>,
             <<R("a", "A", 1), R("a", "A", 0), R("b", "A", 0)>> }
-Init3w == { <<R("a", "A", 0), R("b", "B", 1), None>>,
-            <<R("c", "C", 1), R("c", "C", 0), R("b", "A", 0)>> }
 Init2w == { <<None, None>>,
             <<R("a", "A", 0), R("c", "C", 1)>>,
             <<R("b", "B", 1), R("b", "B", 1)>> }
@@ -38,9 +31,6 @@ Init2s == { <<None, None>>,
             <<R("a", "A", 0), R("b", "B", 1)>>,
             <<R("a", "A", 1), R("a", "A", 0)>> }
 \* over 4 port numbers
-Init4 == { <<None, None, None, None>>,
-           <<R("a", "A", 0), R("b", "B", 0), None, R("b", "A", 0)>>,
-           <<R("a", "A", 0), R("a", "B", 0), R("b", "A", 0), R("b", "B", 0)>> }
 Init4h == { <<None, None, None, None>>,
             <<R("a", "A", 0), R("b", "A", 0), None, R("b", "A", 0)>>,
             <<R("a", "A", 0), R("a", "A", 0), R("b", "A", 0), R("a", "A", 0)>> }
